@@ -444,3 +444,13 @@ def run(ck, prog):
 
 
 EXPLANATION += (' Completeness/depth: the stored best score (split_score) is compared with other candidates only - never defaulted to or tested against a constant (E1-candidate); both child visitors built in split() receive the same level, visitor.level + 1 (E1-sibling).')
+
+
+# ------------------------------------------------------------------ generic: signed counters are not cast to unsigned on their negative side
+_run_pre_negcast = run
+
+
+def run(ck, prog):
+    _run_pre_negcast(ck, prog)
+    from sa import negcast
+    negcast.run_rule(ck, prog, set(DIMENSION_FILES))
